@@ -1,7 +1,29 @@
-import PprofVerif.Base.Tok
-/- Driver operations for C05. -/
+import PprofVerif.Model.Trim
+/- Driver operations for C05 (node selection of trimmed text reports). The graph figures under a
+   kept set are served by Driver.Ops.C04 (`graph.spec` / `graph.model` with a kept list). -/
 namespace Driver.C05
-open PV
+open PV PV.Trim
 
-def ops : List (String × (List String → String)) := []
+def rdEntry (i : Nat) : Rd Entry := do
+  pure { id := i, name := ← Rd.str, infoStr := ← Rd.str, flat := ← Rd.int, cum := ← Rd.int }
+
+def rdEntries : Nat → Nat → Rd (List Entry)
+  | 0, _ => pure []
+  | n+1, i => do let e ← rdEntry i; let r ← rdEntries n (i + 1); pure (e :: r)
+
+def ops : List (String × (List String → String)) := [
+  -- trim.text <fracNum> <fracDen> <nodeCount> <cumSort> <n> (name infoStr flat cum)*  →  ok <cutoff> <k> ids…
+  ("trim.text", fun ts =>
+    match Rd.run (do
+        let fn ← Rd.int; let fd ← Rd.int; let nc ← Rd.nat; let cs ← Rd.bool
+        let n ← Rd.nat
+        let es ← rdEntries n 0
+        pure (({ fracNum := fn, fracDen := fd, nodeCount := nc, cumSort := cs } : TrimOpts), es)) ts with
+    | none => "bad-op"
+    | some (o, es) =>
+      if o.fracDen ≤ 0 then "bad-op" else
+      let r := trimText o es
+      let c := cutoffOf ((es.map (·.flat)).sum) o.fracNum o.fracDen
+      "ok " ++ Wr.render (Wr.int c ++ Wr.list (fun e => Wr.nat e.id) r))
+]
 end Driver.C05
